@@ -1300,6 +1300,13 @@ func runC10(w *W) {
 	w.World.StepLimit = 400000
 
 	c := &c10World{w: w, opts: &generic.Options{}}
+	if t.Chance(1, 3, "opt.unimplemented") {
+		// switches documented as "not implemented": setting them must not change anything
+		c.opts.WriteDefault, c.opts.UseNativeSkip, c.opts.NotScanParentNode = t.Chance(1, 2, "opt.wd"), t.Chance(1, 2, "opt.ns"), t.Chance(1, 2, "opt.nsp")
+		c.opts.StoreChildrenById, c.opts.StoreChildrenByHash, c.opts.IterateStructByName = t.Chance(1, 2, "opt.sbi"), t.Chance(1, 2, "opt.sbh"), t.Chance(1, 2, "opt.isn")
+		w.Count("worlds_with_unimplemented_options_set")
+		w.Logf("generic.Options: %+v", *c.opts)
+	}
 	sw := &c.sw
 	sw.InsertMapKey = t.Chance(1, c10Rare, "sw.insertkey")
 	sw.Emptying = t.Chance(1, c10Rare, "sw.emptying")
